@@ -78,6 +78,31 @@ fn kv_sig(text: &str, s: &StmtInfo, off: usize) -> String
 }
 
 /// Compare parser entries (through the hook) with the model.
+/// For a `non-literal-target` item (`name!(target: <expr>, "<msg>");`): the byte range, relative to
+/// the item's start, in which a reference may be inserted IF the tool treats it as a statement:
+/// (first position after the comma that ends the target argument, first position inside the message
+/// literal). A message-prefix token has to sit exactly at the second value, a key-value token
+/// anywhere from the first value up to the literal's opening quote.
+pub fn optional_window(item: &str) -> Option<(usize, usize)>
+{
+    let q = item.rfind(", \"")? + 2;
+    Some((q - 1, q + 1))
+}
+
+fn optional_ok(item: &str, rel: usize, kind: Option<TokKind>) -> bool
+{
+    match optional_window(item)
+    {
+        Some((lo, hi)) => match kind
+        {
+            Some(TokKind::Msg) => rel == hi,
+            Some(_) => rel >= lo && rel < hi,
+            None => rel >= lo && rel <= hi,
+        },
+        None => false,
+    }
+}
+
 pub fn check_entries(r: &Rendered, _cfg: &ConfigSpec, entries: &[Entry]) -> Vec<Deviation>
 {
     let mut out = Vec::new();
@@ -218,6 +243,17 @@ pub fn check_entries(r: &Rendered, _cfg: &ConfigSpec, entries: &[Entry]) -> Vec<
         let d = r.decoys.iter().find(|(a, b, _)| e.offset >= *a && e.offset <= *b);
         match d
         {
+            Some((a, b, k)) if *k == "non-literal-target" =>
+            {
+                let kind = if e.token_for_7.starts_with('[') { TokKind::Msg } else { TokKind::KvSemi };
+                if !optional_ok(&r.text[*a..*b], e.offset - *a, Some(kind))
+                {
+                    out.push(dev(
+                        "non-literal-target-reference-misplaced",
+                        format!("{:?} was taken as a statement, but its reference position is byte {} of it ({:?}); allowed: {:?}", &r.text[*a..*b], e.offset - *a, e, optional_window(&r.text[*a..*b])),
+                    ));
+                }
+            },
             Some((a, b, k)) => out.push(dev(
                 &format!("decoy-recognised:{}", k),
                 format!("decoy {:?} was recognised as a log statement: {:?}", &r.text[*a..*b], e),
@@ -348,6 +384,16 @@ pub fn check_edit(r: &Rendered, new: &[u8]) -> (Vec<Deviation>, Vec<Insertion>)
         let d = r.decoys.iter().find(|(a, b, _)| i.offset >= *a && i.offset <= *b);
         match d
         {
+            Some((a, b, kind)) if *kind == "non-literal-target" =>
+            {
+                if !optional_ok(&r.text[*a..*b], i.offset - *a, Some(i.kind))
+                {
+                    out.push(dev(
+                        "non-literal-target-reference-misplaced",
+                        format!("{:?} received {:?}; allowed positions inside it: {:?}", &r.text[*a..*b], i, optional_window(&r.text[*a..*b])),
+                    ));
+                }
+            },
             Some((a, b, kind)) => out.push(dev(
                 &format!("decoy-edited:{}", kind),
                 format!("decoy {:?} received {:?}", &r.text[*a..*b], i),
@@ -476,6 +522,16 @@ pub fn check_report(r: &Rendered, missing: &[(usize, usize)], unusable: &[(usize
             let d = off.and_then(|o| r.decoys.iter().find(|(a, b, _)| o >= *a && o <= *b));
             match d
             {
+                Some((a, b, k)) if *k == "non-literal-target" =>
+                {
+                    if !optional_ok(&r.text[*a..*b], off.unwrap_or(0) - *a, None)
+                    {
+                        out.push(dev(
+                            "non-literal-target-reference-misplaced",
+                            format!("{:?} reported as lacking a reference at byte {} of it; allowed: {:?}", &r.text[*a..*b], off.unwrap_or(0) - *a, optional_window(&r.text[*a..*b])),
+                        ));
+                    }
+                },
                 Some((a, b, k)) => out.push(dev(
                     &format!("decoy-reported:{}", k),
                     format!("decoy {:?} reported as missing a reference", &r.text[*a..*b]),
